@@ -400,6 +400,7 @@ class Ctx:
         self.obligations.append(ob)
         # after it has been recorded the fact may be used downstream (it is checked separately)
         self.pc.append(goal)
+        self.__dict__.setdefault("goal_ids", set()).add(goal.get_id())
         return ob
 
     def prove_forall(self, name, kind, length, body, meta=None, lo=0):
